@@ -7,12 +7,19 @@
 //	[@k] new <indexInterval> <cache 0|1> <startOffset> [<readAheadSegments>]
 //	[@k] append <hex record set>
 //	[@k] flush | gate | release | restart | restartat <storeOffset> | dropcache | read <offset> <maxBytes> | find <offset>
+//	[@k] read2 <o1> <m1> <o2> <m2>        two goroutines call Read at the same time
+//	[@k] delindex <base> | badindex <base> | delseg <base>   object loss in S3 (index gone / index corrupt / segment and index gone)
+//
+// Hand-out stability: every byte slice returned by Read is kept together with a private copy taken right after the
+// call returned; after EVERY later op all of them are compared again.  A slice whose contents changed is reported as
+// `handout-changed <index of the read op>` in place of the op's own result line.
 //
 // k selects one of the logs (default 0): 0 = orders/0, 1 = orders/1, 2 = orders/10 (S3 prefix of 1 is a string prefix of 2's).
 package main
 
 import (
 	"bufio"
+	"bytes"
 	"context"
 	"encoding/hex"
 	"errors"
@@ -80,7 +87,53 @@ var (
 	done   chan error
 
 	readAhead int
+
+	// slices handed out by Read (with the private copy taken when Read returned) of the current world
+	handouts []handout
+	opNo     int
 )
+
+type handout struct {
+	op        int
+	got, want []byte
+}
+
+func keep(data []byte) {
+	if len(handouts) >= 512 {
+		handouts = handouts[1:]
+	}
+	handouts = append(handouts, handout{op: opNo, got: data, want: append([]byte(nil), data...)})
+}
+
+// staleHandout returns the op number of the first handed-out slice whose bytes are no longer what Read returned.
+func staleHandout() int {
+	for i, h := range handouts {
+		if !bytes.Equal(h.got, h.want) {
+			handouts = append(handouts[:i:i], handouts[i+1:]...)
+			return h.op
+		}
+	}
+	return -1
+}
+
+type readRes struct {
+	data []byte
+	copy []byte
+	err  error
+	pan  bool
+}
+
+func (r readRes) String() string {
+	switch {
+	case r.pan:
+		return "panic"
+	case r.err != nil && errors.Is(r.err, storage.ErrOffsetOutOfRange):
+		return "oor"
+	case r.err != nil:
+		return "err"
+	}
+	return "d:" + hx(r.copy)
+}
 
 func (p *plog) open(start int64) {
 	cfg := storage.PartitionLogConfig{
@@ -170,6 +223,7 @@ func doOp(f []string) (out string) {
 			return "bad-op"
 		}
 		if k == 0 { // a fresh world
+			handouts = nil
 			s3 = &gateS3{S3Client: storage.NewMemoryS3Client()}
 			shared = cache.NewSegmentCache(256 << 20)
 			logs = make([]*plog, len(ids))
@@ -312,7 +366,64 @@ func doOp(f []string) (out string) {
 			}
 			return "err | " + p.dump()
 		}
+		keep(data)
 		return "data " + hx(data) + " | " + p.dump()
+	case f[0] == "read2" && len(f) == 5:
+		var off [2]int64
+		var max [2]int64
+		for i := 0; i < 2; i++ {
+			var e1, e2 error
+			off[i], e1 = strconv.ParseInt(f[1+2*i], 10, 64)
+			max[i], e2 = strconv.ParseInt(f[2+2*i], 10, 32)
+			if e1 != nil || e2 != nil {
+				return "bad-op"
+			}
+		}
+		var res [2]readRes
+		var wg sync.WaitGroup
+		start := make(chan struct{})
+		for i := 0; i < 2; i++ {
+			wg.Add(1)
+			go func(i int) {
+				defer wg.Done()
+				defer func() {
+					if r := recover(); r != nil {
+						res[i].pan = true
+					}
+				}()
+				<-start
+				d, err := p.l.Read(ctx, off[i], int32(max[i]))
+				res[i] = readRes{data: d, copy: append([]byte(nil), d...), err: err}
+			}(i)
+		}
+		close(start)
+		wg.Wait()
+		for i := 0; i < 2; i++ {
+			if !res[i].pan && res[i].err == nil {
+				if len(handouts) >= 512 {
+					handouts = handouts[1:]
+				}
+				handouts = append(handouts, handout{op: opNo, got: res[i].data, want: res[i].copy})
+			}
+		}
+		return "read2 " + res[0].String() + " " + res[1].String() + " | " + p.dump()
+	case (f[0] == "delindex" || f[0] == "badindex" || f[0] == "delseg") && len(f) == 2:
+		base, err := strconv.ParseInt(f[1], 10, 64)
+		if err != nil || gated != nil {
+			return "bad-op"
+		}
+		switch f[0] {
+		case "delindex":
+			_ = s3.S3Client.DeleteIndex(ctx, p.l.VerifIndexKey(base))
+		case "badindex":
+			if _, err := s3.S3Client.DownloadIndex(ctx, p.l.VerifIndexKey(base)); err == nil {
+				_ = s3.S3Client.UploadIndex(ctx, p.l.VerifIndexKey(base), []byte("not an index"))
+			}
+		case "delseg":
+			_ = s3.S3Client.DeleteSegment(ctx, p.l.VerifSegmentKey(base))
+			_ = s3.S3Client.DeleteIndex(ctx, p.l.VerifIndexKey(base))
+		}
+		return "lost | " + p.dump()
 	case f[0] == "find" && len(f) >= 2: // find <offset> <off@pos>... : findIndexEntry on an explicit table
 		off, e1 := strconv.ParseInt(f[1], 10, 64)
 		if e1 != nil {
@@ -347,7 +458,12 @@ func main() {
 		if len(f) == 0 || strings.HasPrefix(f[0], "#") {
 			continue
 		}
-		fmt.Fprintln(w, doOp(f))
+		opNo++
+		line := doOp(f)
+		if at := staleHandout(); at >= 0 {
+			line = fmt.Sprintf("handout-changed %d", at)
+		}
+		fmt.Fprintln(w, line)
 		w.Flush()
 	}
 }
